@@ -2,6 +2,7 @@ package op
 
 import (
 	"fmt"
+	"sort"
 
 	"github.com/berquerant/crd/errorx"
 	"github.com/berquerant/crd/logx"
@@ -147,6 +148,9 @@ func AllScales() []*Scale {
 		scales[i], _ = NewScale(k)
 		i++
 	}
+	sort.Slice(scales, func(i, j int) bool {
+		return scales[i].Key.String() < scales[j].Key.String()
+	})
 	return scales
 }
 
